@@ -4,7 +4,7 @@
     ([wenc] / [wdec] / [skip]) and the emitted struct code ([to_wire]: which fields Write emits;
     [from_wire]: what Read builds from New<T>()); [gwrite] / [gread] are the generated Write / Read. *)
 From Coq Require Import ZArith List Bool Lia.
-From FV Require Import Base.Res Base.Bytes Model.ThriftBin Proofs.ThriftBinProofs Proofs.ThriftBinGoProofs.
+From FV Require Import Base.Res Base.Bytes Model.ThriftBin Proofs.ThriftBinProofs Proofs.ThriftBinGoProofs Model.GoGenPlan Proofs.GoGenPlanProofs.
 Import ListNotations.
 Open Scope Z_scope.
 
@@ -89,6 +89,25 @@ Theorem c02_write_well_typed : forall e t v,
   gwf e t v -> exists w, to_wire e t v = Ok w /\ wwt e t w /\ from_wire e t w = Ok v.
 Proof. exact go_struct_roundtrip. Qed.
 Print Assumptions c02_write_well_typed.
+
+(** "through typedefs and includes" is REFUTED for the current code (F15, known finding): the
+    generator's typedef resolution (parser.Frugal.UnderlyingType, Model/GoGenPlan.v) continues a
+    chain found in an included file in the including file's scope.  Full statement that fails:
+      forall p cur t fuel, wire_go fuel p cur t = wire_idl fuel p cur t.
+    Witness: main includes inc; inc: typedef i32 T; typedef T U; main's field of type inc.U is an
+    I32 (8) by the IDL and a STRUCT (12) for the generator (replayed on the real compiler by the
+    probe typedef_chain_through_include of tools/props/c02.py: the emitted Go does not compile). *)
+Theorem c02_typedef_through_include_refuted :
+  exists p cur t fuel, wire_idl fuel p cur t = 8 /\ wire_go fuel p cur t = 12.
+Proof. exact f15_refuted. Qed.
+Print Assumptions c02_typedef_through_include_refuted.
+
+(** ... and holds under the exact side condition the quirk forces: every typedef reached through
+    an include has a target that mentions no other declaration. *)
+Theorem c02_typedef_resolution_partial : forall p cur,
+  includes_closed p cur -> forall fuel t, wire_go fuel p cur t = wire_idl fuel p cur t.
+Proof. exact underlying_agree. Qed.
+Print Assumptions c02_typedef_resolution_partial.
 
 (** args / result structs as base.go synthesises them *)
 Theorem c02_args_no_optional : forall args f, In f (map args_field args) -> fmod f <> MOptional.
